@@ -1972,6 +1972,16 @@ dnsname_to_labels(u8 *const buf, size_t buf_len, off_t j,
 	} while (0)
 
 	if (name_len > 255) return -2;
+	/* The encoded name (length bytes + labels + root) is limited to 255
+	 * octets (RFC 1035 2.3.4). */
+	if (name_len + ((name_len && name[name_len - 1] == '.') ? 1 : 2) > 255)
+		return -2;
+	if (name_len == 1 && name[0] == '.') {
+		/* the root */
+		if ((size_t)(j + 1) > buf_len) return -2;
+		buf[j++] = 0;
+		return j;
+	}
 
 	for (;;) {
 		const char *const start = name;
@@ -1995,6 +2005,8 @@ dnsname_to_labels(u8 *const buf, size_t buf_len, off_t j,
 			/* append length of the label. */
 			const size_t label_len = name - start;
 			if (label_len > 63) return -1;
+			/* an empty label can only be the root at the very end */
+			if (label_len == 0) return -1;
 			if ((size_t)(j+label_len+1) > buf_len) return -2;
 			if (table && j < 0x4000) dnslabel_table_add(table, start, j);
 			buf[j++] = (ev_uint8_t)label_len;
